@@ -48,6 +48,8 @@ INVARIANT CommandDefaults
 INVARIANT ModePrecedence
 INVARIANT NacFactorRule
 INVARIANT AuxPreconditions
+INVARIANT MeshModifiersForwarded
+INVARIANT ConsumerIsSubMode
 """
 
 CFG_WFT = """INIT WTInit
@@ -62,19 +64,22 @@ INVARIANT ImplOutputs
 INVARIANT ImplFaithful
 INVARIANT ImplCompared
 INVARIANT ImplSolver
+INVARIANT CellsExercised
 INVARIANT WorkflowPreconditions
 INVARIANT OutputsComputed
 INVARIANT CommandDefaults
 INVARIANT ModePrecedence
 INVARIANT NacFactorRule
 INVARIANT AuxPreconditions
+INVARIANT MeshModifiersForwarded
 """
 
 SBASE = dict(dim=False, disp=False, fsets=False, fsz=False, mode="none", nac=False, fcsym=False, fccalc="",
              readfc=False, writefc=False, rfmt_hdf5=False, wfmt_hdf5=False, fullfc=False, spg=False, cutoff=False,
              tprop=False, tdisp=False, tdm=False, pdos=False, dos=False, moment=False, wmesh=True, mesh_hdf5=False,
              band_hdf5=False, qp_hdf5=False, readq=False, qgiven=False, cif=False, save_params=False,
-             bulk_only=False, calcs_ok=False)
+             bulk_only=False, calcs_ok=False, gc=False, shift=False, nomeshsym=False, even=False, frange=False,
+             cutfreq=False, ptprop=False)
 
 
 def mc_families(quick):
@@ -118,7 +123,15 @@ FamX == AuxFam("qha", {"e-v.dat", "thermal_properties_set"}, B, {FALSE}, {FALSE}
         \\cup AuxFam("bandplot", {"band.yaml", "band.hdf5"}, {FALSE}, {FALSE}, B)
         \\cup AuxFam("propplot", {"thermal_properties.yaml", "band.yaml"}, {FALSE}, {FALSE}, {FALSE})
         \\cup AuxFam("vaspborn", {"OUTCAR", "POSCAR"}, {FALSE}, {FALSE}, {FALSE})
-MCWCases == FamA \\cup FamN \\cup FamF \\cup FamM \\cup FamP \\cup FamX
+FamG == {[id |-> "G", cmd |-> c, inp |-> {"yaml", "FORCE_SETS"},
+          s |-> [SBase EXCEPT !.mode = m, !.tprop = (k \\in {"tprop", "ptprop"}), !.ptprop = (k = "ptprop"), !.tdisp = (k = "tdisp"),
+                              !.tdm = (k \\in {"tdm", "tdm_cif"}), !.cif = (k = "tdm_cif"), !.pdos = (k = "pdos"),
+                              !.dos = (k = "dos"), !.moment = (k = "moment"), !.gc = g, !.shift = sh, !.nomeshsym = ns,
+                              !.even = ev, !.frange = fr, !.cutfreq = cf]] :
+         c \\in Cmds, m \\in {"mesh", "band_mesh"},
+         k \\in {"mesh", "dos", "pdos", "tprop", "ptprop", "tdisp", "tdm", "tdm_cif", "moment"},
+         g \\in B, sh \\in B, ns \\in B, ev \\in B, fr \\in B, cf \\in B}
+MCWCases == FamA \\cup FamN \\cup FamF \\cup FamM \\cup FamP \\cup FamX \\cup FamG
 MCInstalled == {"traditional"}
 ====
 """ % (to_tla(SBASE), "{}" if quick else '{"cell"}', "{FALSE}" if quick else "B",
@@ -331,7 +344,11 @@ def abstract_settings(st):
         band_hdf5=bool(st.is_hdf5 or st.band_format == "hdf5"),
         qp_hdf5=bool(st.is_hdf5 or st.qpoints_format == "hdf5"),
         readq=bool(st.read_qpoints), qgiven=bool(st.qpoints),
-        cif=st.thermal_displacement_matrix_temperatue is not None, save_params=bool(st.save_params))
+        cif=st.thermal_displacement_matrix_temperatue is not None, save_params=bool(st.save_params),
+        gc=bool(st.is_gamma_center), shift=st.mesh_shift is not None, nomeshsym=not bool(st.is_mesh_symmetry),
+        even=isinstance(st.mesh_numbers, (list, tuple)) and any(int(x) % 2 == 0 for x in np.ravel(st.mesh_numbers)),
+        frange=(st.min_frequency is not None or st.max_frequency is not None),
+        cutfreq=st.cutoff_frequency is not None, ptprop=bool(st.is_projected_thermal_properties))
     return s
 
 
@@ -579,7 +596,7 @@ class Replay:
         kw = dict(shift=st.mesh_shift, is_time_reversal=st.is_time_reversal_symmetry,
                   is_mesh_symmetry=st.is_mesh_symmetry, with_eigenvectors=st.is_eigenvectors,
                   is_gamma_center=st.is_gamma_center)
-        if arg == "iter":
+        if arg.startswith("iter"):
             self.ph.init_mesh(mesh, use_iter_mesh=True, **kw)
         else:
             self.ph.run_mesh(mesh, with_group_velocities=st.is_group_velocity, **kw)
@@ -609,6 +626,17 @@ class Replay:
                                                   temperatures=None if t_cif is None else [t_cif],
                                                   freq_min=st.min_frequency, freq_max=st.max_frequency)
         self.res["tdm"] = self.ph.get_thermal_displacement_matrices_dict()
+        if t_cif is not None:  # the library's own cif writer, in a scratch directory
+            d = tempfile.mkdtemp(prefix="c18cif_")
+            cwd = os.getcwd()
+            os.chdir(d)
+            try:
+                self.ph.write_thermal_displacement_matrix_to_cif(0)
+                with open("tdispmat.cif") as fh:
+                    self.res["cif_text"] = fh.read()
+            finally:
+                os.chdir(cwd)
+                shutil.rmtree(d, ignore_errors=True)
 
     def c_run_pdos(self, arg):
         st = self.st
@@ -626,7 +654,15 @@ class Replay:
         self.res["dos"] = self.ph.get_total_dos_dict()
 
     def c_run_moment(self, arg):
-        pass  # printed only
+        """printed only: total and atom-projected moments of the orders the settings select"""
+        st = self.st
+        rows = []
+        for order in ([st.moment_order] if st.moment_order is not None else range(3)):
+            self.ph.run_moment(order=order, freq_min=st.min_frequency, freq_max=st.max_frequency, is_projection=False)
+            total = self.ph.get_moment()
+            self.ph.run_moment(order=order, freq_min=st.min_frequency, freq_max=st.max_frequency, is_projection=True)
+            rows.append([order, total] + list(self.ph.get_moment()))
+        self.res["moment"] = rows
 
     def c_run_modulation(self, arg):
         m = self.st.modulation
@@ -914,6 +950,13 @@ def compare_outputs(setup, rp, res, written, cmp, outdir):
             P(f + ":temperatures", [x["temperature"] for x in tp], tpr["temperatures"], C.decimals(t, "temperature"))
             for key in ("free_energy", "entropy", "heat_capacity"):
                 P(f + ":" + key, [x[key] for x in tp], tpr[key], C.decimals(t, key))
+            cmp.equal(f + ":projected section", "projected_thermal_properties" in y, bool(st.is_projected_thermal_properties))
+            if st.is_projected_thermal_properties and "projected_thermal_properties" in y:
+                _, pfe, pent, pcv = rp.ph.thermal_properties._projected_thermal_properties
+                ptp = y["projected_thermal_properties"]
+                P(f + ":projected free_energy", [x["free_energy"] for x in ptp], pfe, 7)
+                P(f + ":projected entropy", [x["entropy"] for x in ptp], pent, 7)
+                P(f + ":projected heat_capacity", [x["heat_capacity"] for x in ptp], np.nan_to_num(pcv), 7)
         elif f == "thermal_displacements.yaml" and "tdisp" in res:
             cmp.checked.add(f)
             y = C.load_yaml(path(f))
@@ -936,6 +979,10 @@ def compare_outputs(setup, rp, res, written, cmp, outdir):
             P(f + ":matrices", [x["displacement_matrices"] for x in td], six, C.decimals(t, "displacement_matrices"))
         elif f == "tdispmat.cif":
             cmp.checked.add(f)
+            if "cif_text" in res:
+                compare_text(cmp, f, _text(path(f)), res["cif_text"])
+            else:
+                cmp.bad.append("tdispmat.cif: written without a cif temperature in the specification's calls")
         elif f == "total_dos.dat" and "dos" in res:
             cmp.checked.add(f)
             a = C.parse_dat(path(f))
@@ -1004,6 +1051,16 @@ def compare_outputs(setup, rp, res, written, cmp, outdir):
         elif f in ("phonopy.yaml", "phonopy_params.yaml") and res.get("summary"):
             cmp.checked.add(f)
             compare_summary(setup, rp, path(f), cmp, f)
+    if "moment" in res:
+        import re
+
+        got = [[float(x) for x in [m.group(1), m.group(2)] + m.group(3).split()]
+               for m in re.finditer(r"^\s*(\d+) \|\s*(-?[\d.]+) \|\s*((?:-?[\d.]+\s*)+)$", getattr(rp, "stdout", ""), re.M)]
+        cmp.checked.add("stdout:moment")
+        if len(got) != len(res["moment"]):
+            cmp.bad.append("stdout:moment: %d rows printed, %d expected" % (len(got), len(res["moment"])))
+        else:
+            cmp.close("stdout:moment", got, res["moment"], 0.6e-5)
     if "anime_dir" in res:
         libfiles = sorted(os.listdir(res["anime_dir"]))
         cmp.equal("ANIME:files", sorted(w for w in written if w.startswith(ANIME_FILES)), libfiles)
@@ -1293,6 +1350,7 @@ def workflow_cases(su, full):
         add("save-params", cmd, base + ["--mesh"] + M + ["--save-params"])
         add("rm-params", cmd, None, before=lambda su: os.remove(os.path.join(su.dir, "phonopy_params.yaml")))
     if full:
+        modifier_cases(su, add, L)
         aux_cases(su, add, L, M, band)
         add("force-sets-save-params", "phonopy", ["-f", "@FORCEFILES@", "--sp"], force_files="@")
         add("from-params", "phonopy", ["phonopy_params.yaml", "--mesh"] + M)
@@ -1330,6 +1388,35 @@ def run_aux_case(ctx, su, cs, argv, cid, casedir, jobs):
                      info=info, aux_out=out, tol=c17_io.TOL.get((info.get("cout") or "").lower(), dict(frac=1e-9, lat=1e-9))))
     su.cases_run += 1
     ctx.count(cid)
+
+
+def modifier_cases(su, add, L):
+    """Every consumer of the sampling mesh crossed (pairwise) with the mesh modifiers:
+       A: even mesh + GAMMA_CENTER + frequency window / cutoff,
+       B: odd mesh + MP_SHIFT + MESH_SYMMETRY = .FALSE. (configuration file, consumer as option),
+       C: even mesh, plain;   the command alternates."""
+    fcut = su.cfg["fcut"]
+    T = ["--tmax", "200", "--tstep", "100"]
+    win = ["--fmin", "1", "--fmax", fcut]
+    consumers = [("mesh", [], []), ("dos", ["--dos"], win), ("pdos", ["--pdos", "1, 2"], win),
+                 ("tprop", ["-t"] + T, ["--cutoff-freq", fcut]), ("ptprop", ["--pt"] + T, ["--cutoff-freq", fcut]),
+                 ("tdisp", ["--td"] + T, win), ("tdm", ["--tdm"] + T, win), ("tdm_cif", ["--tdm-cif", "150"], win),
+                 ("moment", ["--moment", "--moment-order", "2"], win)]
+    add("write-modifier-conf", "load", None, before=lambda su: open(os.path.join(su.dir, "modB.conf"), "w").write(
+        "MESH = 3 3 3\nMP_SHIFT = 1/2 1/2 1/2\nMESH_SYMMETRY = .FALSE.\n"))
+    for i, (name, args, rng_) in enumerate(consumers):
+        for k, variant in enumerate("ABC"):
+            cmd = ("phonopy", "load")[(i + k) % 2]
+            base = [] if cmd == "phonopy" else L
+            if variant == "A":
+                argv = base + ["--mesh", "4", "4", "2", "--gc"] + args + rng_
+            elif variant == "B":
+                argv = (["modB.conf"] if cmd == "phonopy" else base + ["--config", "modB.conf"]) + args
+            else:
+                argv = base + ["--mesh", "4", "4", "2"] + args
+            if os.environ.get("C18_DROP") == "mod-%s-%s" % (name, variant):
+                continue  # self-test of the vacuity invariant
+            add("mod-%s-%s" % (name, variant), cmd, argv)
 
 
 def aux_cases(su, add, L, M, band):
@@ -1474,7 +1561,7 @@ def run_setup(ctx, su, full, events, expected_jobs, cases=None):
         job = dict(id=cid, cmd=cs.cmd, argv=argv, inp=inp, s=s, st=st, confs=confs, yaml_file=yaml_file,
                    indir=indir, outdir=outdir, written=written, status=status, exc=r["exc"],
                    stdout_tail=r["stdout"][-1500:], setup=su, fsz=bool(st.create_force_sets_zero),
-                   solver=solver or "none", sweep=sweep)
+                   solver=solver or "none", sweep=sweep, stdout=r["stdout"] if st.is_moment else "", full=bool(full))
         expected_jobs.append(job)
         su.cases_run += 1
         ctx.count(cid)
@@ -1564,6 +1651,7 @@ def workflow_level(ctx):
                                        % (type(ex).__name__, ex, traceback.format_exc()[-400:]))
             elif e["status"] == "ok" and j["status"] == "ok":
                 rp = Replay(j["setup"], j["cmd"], j["st"], j["confs"], j["indir"], j["yaml_file"], e["cellsrc"])
+                rp.stdout = j.get("stdout", "")
                 try:
                     res = rp.run(e["calls"])
                     compare_outputs(j["setup"], rp, res, j["written"], cmp, j["outdir"])
@@ -1581,7 +1669,7 @@ def workflow_level(ctx):
                        checked=set(cmp.checked), solver=j["solver"])
             j["bad"] = cmp.bad
             j["expected"] = e
-            events.append(dict(id=j["id"], cmd=j["cmd"], inp=set(j["inp"]), s=j["s"], obs=obs))
+            events.append(dict(id=j["id"], cmd=j["cmd"], inp=set(j["inp"]), s=j["s"], obs=obs, full=bool(j.get("full"))))
             ctx.traces += 1
         ctx.extra["workflow_cases"] = dict(invocations=len(jobs), setups=["%s/%s%s" % (n, c, "" if f else " (core)")
                                                                           for n, c, f in combos],
@@ -1599,6 +1687,9 @@ def workflow_level(ctx):
                       requirement=False, extra_args=("-continue",), workers=2, env=JENV)
         byid = {j["id"]: j for j in jobs}
         for name, tr in res.violations:
+            if name == "CellsExercised":  # vacuity of the (mesh consumer x modifier) coverage: machinery failure
+                raise tlcmod.MachineryError("CLIWorkflowTrace: some (mesh consumer, mesh modifier) cell is not exercised "
+                                            "by a compared run: %s" % missing_cells(events))
             eid = tr[-1][1].get("wev", {}).get("id") if tr else None
             if eid is None:
                 raise tlcmod.MachineryError("violation of %s without a parsable trace" % name)
@@ -1617,6 +1708,30 @@ def workflow_level(ctx):
     finally:
         for su in setups:
             su.cleanup()
+
+
+def missing_cells(events):
+    """(for the message only - TLC decides) the cells of CLIWorkflowTrace!MissingCells"""
+    def consumer(s):
+        if s["mode"] not in ("mesh", "band_mesh"):
+            return "none"
+        for flag, name in (("tprop", "ptprop" if s["ptprop"] else "tprop"), ("tdisp", "tdisp"),
+                           ("tdm", "tdm_cif" if s["cif"] else "tdm"), ("pdos", "pdos"), ("dos", "dos"), ("moment", "moment")):
+            if s[flag]:
+                return name
+        return "mesh"
+
+    have = set()
+    for e in events:
+        if e["cmd"] in ("phonopy", "load") and e["obs"]["checked"]:
+            s = e["s"]
+            mods = {m for m in ("gc", "shift", "nomeshsym") if s[m]} | {"even" if s["even"] else "odd"}
+            if s["frange"] or s["cutfreq"]:
+                mods.add("range")
+            have |= {(consumer(s), m) for m in mods}
+    return sorted((c, m) for c in ("mesh", "dos", "pdos", "tprop", "ptprop", "tdisp", "tdm", "tdm_cif", "moment")
+                  for m in ("gc", "shift", "nomeshsym", "even", "odd", "range")
+                  if (c, m) not in have and not (c == "mesh" and m == "range"))
 
 
 def _short(b):
